@@ -191,7 +191,7 @@ func sliceRoots(v ssa.Value) map[ssa.Value]bool {
 				rec(y.Call.Args[0])
 				return
 			}
-			if isAppendLike(y) {
+			if isAppendLike(y) || isSlicesPassThrough(y) {
 				rec(y.Call.Args[0])
 				return
 			}
@@ -723,6 +723,19 @@ func ruleMGetSort(p *Prog, r *Result) {
 				}
 			})
 			r.add(sorted, key, p.InstrPos(in), "the key list stored into MultiGetPlan.Keys must have been sorted on every path")
+			// duplicates removed after sorting (recognised idiom: slices.Compact on the sorted list)
+			dedup := false
+			backward(st.Val, func(x ssa.Value) bool {
+				if c, ok := x.(*ssa.Call); ok && isCompactCall(c) {
+					dedup = true
+					return false
+				}
+				return true
+			})
+			if c, ok := st.Val.(*ssa.Call); ok && isCompactCall(c) {
+				dedup = true
+			}
+			r.add(dedup, key+"|dedup", p.InstrPos(in), "the sorted key list is compacted (slices.Compact) so that a key listed twice is read - and returned - once")
 		})
 	}
 	r.floor("stores to MultiGetPlan.Keys", n, 1)
@@ -886,4 +899,36 @@ func isAppendLike(c *ssa.Call) bool {
 		return false
 	}
 	return types.Identical(res.At(0).Type(), c.Call.Args[0].Type())
+}
+
+// isSlicesPassThrough: slices.Compact / Clip / Grow ...: return (a reslice of) their first argument.
+func isSlicesPassThrough(c *ssa.Call) bool {
+	f := c.Call.StaticCallee()
+	if f == nil || len(c.Call.Args) == 0 {
+		return false
+	}
+	o := f
+	if f.Origin() != nil {
+		o = f.Origin()
+	}
+	if o.Pkg == nil || o.Pkg.Pkg.Path() != "slices" {
+		return false
+	}
+	switch o.Name() {
+	case "Compact", "CompactFunc", "Clip", "Grow":
+		return types.Identical(c.Type(), c.Call.Args[0].Type())
+	}
+	return false
+}
+
+func isCompactCall(c *ssa.Call) bool {
+	f := c.Call.StaticCallee()
+	if f == nil {
+		return false
+	}
+	o := f
+	if f.Origin() != nil {
+		o = f.Origin()
+	}
+	return o.Pkg != nil && o.Pkg.Pkg.Path() == "slices" && o.Name() == "Compact"
 }
